@@ -164,6 +164,13 @@ def step (w : List String) : String :=
       | .err => "E_CRYPT"
       | .panic => "PANIC"
     | _, _ => "bad-op"
+  | ["zl", _, limit, xml, sizes] =>
+    match limit.toNat?, xml.toNat?, (sizes.splitOn ",").mapM (·.toNat?) with
+    | some l, some x, some ss => match openLimits ss l x with
+      | .ok _ => "ok"
+      | .err => "E_LIMIT"
+      | .panic => "PANIC"
+    | _, _, _ => "bad-op"
   | "mut" :: _ => "-"
   | _ => "bad-op"
 
